@@ -54,6 +54,7 @@ def build_ops(values=("small", "oversize", "none"), overrides=True, metadata=Tru
     if overrides:
         ops.append(("memoize", 0, "small", "ko/key1"))
         ops.append(("memoize", 2, "other", "ko/key1"))  # a different call writing to the same override key
+        ops.append(("memoize", 3, "none", "ko/key1"))   # ... and a null result written under it
     if forgets:
         for ci in range(len(CALLS)):
             ops.append(("forget_call", ci))
